@@ -469,9 +469,9 @@ func ruleO4(c *Ctx) {
 				return
 			}
 			total++
-			for _, pc := range pathConds(in.Block()) {
+			for _, pf := range pathFacts(in.Block()) {
 				fs := map[string]bool{}
-				fieldsRead(pc.If.Cond, 0, map[ssa.Value]bool{}, fs)
+				fieldsRead(pf.Cond, 0, map[ssa.Value]bool{}, fs)
 				for f := range fs {
 					if _, ok := guards[f]; !ok {
 						guards[f] = c.P.Pos(in.Pos())
